@@ -10,7 +10,10 @@ What is regenerated from the snapshot on every run:
   * the directive-name sets the two skip functions and detect_include_guard test, whether each of them steps over
     null directives first, and the loop condition of skip_line,
   * the shape of search_include_paths (absolute name returned as is, cache consulted first, first existing directory wins)
-    and search_include_next (continue after the first include_paths entry that is a directory prefix of the current file).
+    and search_include_next (continue after the first include_paths entry that is a directory prefix of the current file),
+  * include_file's nesting limit (the number is regenerated; the position of the test and the depth bookkeeping are pinned),
+  * the text of read_include_filename, join_tokens, copy_line, file_macro and the object-like arm of expand_macro
+    (Model/IncludeOperand.lean transcribes them).
 Anything that does not have exactly the expected shape raises ExtractError (the check then reports the tie as broken)."""
 import re
 from common import *
@@ -67,8 +70,13 @@ def generate(repo):
     arm(r'if \(!strcmp\(argv\[i\], "-idirafter"\)\) \{ strarray_push\(&idirafter, argv\[\+\+i\]\); continue; \}', '-idirafter arm')
     n_push_pa = len(re.findall(r'strarray_push\(&include_paths,', pa))
     idir_in_pa = re.search(r'for \(int i = 0; i < idirafter\.len; i\+\+\) strarray_push\(&include_paths, idirafter\.data\[i\]\);', pa)
-    if n_push_pa != 1 + (1 if idir_in_pa else 0):
-        raise ExtractError(f'parse_args pushes onto include_paths {n_push_pa} times; expected the -I arm'
+    # `-I dir` as two arguments (optional arm): must stand in front of the `-Idir` arm, which would otherwise take "-I" with an empty directory
+    m_isep = re.search(r'if \(!strcmp\(argv\[i\], "-I"\)\) \{ strarray_push\(&include_paths, argv\[\+\+i\]\); continue; \}', pa[loop_start:])
+    m_ipre = re.search(r'if \(!strncmp\(argv\[i\], "-I", 2\)\)', pa[loop_start:])
+    if m_isep and m_isep.start() > m_ipre.start():
+        raise ExtractError('parse_args: the `-I dir` arm stands behind the `-Idir` arm')
+    if n_push_pa != 1 + (1 if m_isep else 0) + (1 if idir_in_pa else 0):
+        raise ExtractError(f'parse_args pushes onto include_paths {n_push_pa} times; expected the -I arm(s)'
                            + (' and the -idirafter loop' if idir_in_pa else ''))
 
     # define(): NAME=BODY / NAME -> "1"
@@ -192,12 +200,32 @@ def generate(repo):
 
     # ---------------------------------------------------------------- include_file
     inf = norm(function_body(pp, r'^static\s+Token\s*\*\s*include_file\s*\(\s*Token\s*\*\s*tok\s*,\s*char\s*\*\s*path\s*,\s*Token\s*\*\s*filename_tok\s*\)\s*\{', 'include_file'))
+    # since b453bf4: the nesting limit.  The test stands after the two shortcuts and before the file is opened; the depth of the new
+    # File is the depth of the File of the directive's operand token + 1.  The limit itself is regenerated (Gen.includeDepthLimit).
     want_inf = ('if (hashmap_get(&pragma_once, path)) return tok; static HashMap include_guards; '
                 'char *guard_name = hashmap_get(&include_guards, path); if (guard_name && hashmap_get(&macros, guard_name)) return tok; '
+                'if (filename_tok->file->incl_depth >= LIMIT) error_tok(filename_tok, "#include nested too deeply"); '
                 'Token *tok2 = tokenize_file(path); if (!tok2) error_tok(filename_tok, "%s: cannot open file: %s", path, strerror(errno)); '
+                'tok2->file->incl_depth = filename_tok->file->incl_depth + 1; '
                 'guard_name = detect_include_guard(tok2); if (guard_name) hashmap_put(&include_guards, path, guard_name); return append(tok2, tok);')
-    if inf != want_inf:
+    m_lim = re.search(r'filename_tok->file->incl_depth >= (\d+)\)', inf)
+    if not m_lim:
+        raise ExtractError('include_file: no test of the form `filename_tok->file->incl_depth >= <number>`: ' + inf)
+    depth_limit = int(m_lim.group(1))
+    if inf != want_inf.replace('LIMIT', m_lim.group(1)):
         raise ExtractError('include_file is not the function the hand model transcribes: ' + inf)
+    # incl_depth is written nowhere else, and a new File starts at depth 0 (calloc in new_file): main file and -include files
+    hdr = strip_comments(read(repo, 'chibicc.h'))
+    if not re.search(r'\bint\s+incl_depth\s*;', hdr):
+        raise ExtractError('chibicc.h: File has no member `int incl_depth;`')
+    tk = strip_comments(read(repo, 'tokenize.c'))
+    nf = norm(function_body(tk, r'^File\s*\*\s*new_file\s*\(\s*char\s*\*\s*name\s*,\s*int\s+file_no\s*,\s*char\s*\*\s*contents\s*\)\s*\{', 'new_file'))
+    if not nf.startswith('File *file = calloc(1, sizeof(File));') or 'incl_depth' in nf:
+        raise ExtractError('new_file does not start from a zeroed File (incl_depth of the main file must be 0): ' + nf)
+    n_uses = sum(len(re.findall(r'\bincl_depth\b', strip_comments(read(repo, f))))
+                 for f in ('preprocess.c', 'tokenize.c', 'main.c', 'parse.c', 'codegen.c', 'type.c', 'hashmap.c', 'strings.c', 'unicode.c'))
+    if n_uses != 3:
+        raise ExtractError(f'incl_depth is used {n_uses} times in the sources; the model knows the three uses in include_file')
 
     # ---------------------------------------------------------------- search functions
     sp = norm(function_body(pp, r'^char\s*\*\s*search_include_paths\s*\(\s*char\s*\*\s*filename\s*\)\s*\{', 'search_include_paths'))
@@ -230,6 +258,39 @@ def generate(repo):
     if once_arm not in p2:
         raise ExtractError('preprocess2: the #pragma once arm is not the one the hand model transcribes')
 
+    # ---------------------------------------------------------------- the operand of #include (Model/IncludeOperand.lean)
+    rif = norm(function_body(pp, r'^static\s+char\s*\*\s*read_include_filename\s*\(\s*Token\s*\*\*\s*rest\s*,\s*Token\s*\*\s*tok\s*,\s*bool\s*\*\s*is_dquote\s*\)\s*\{',
+                            'read_include_filename'))
+    want_rif = ('if (tok->kind == TK_STR) { *is_dquote = true; *rest = skip_line(tok->next); return strndup(tok->loc + 1, tok->len - 2); } '
+                'if (equal(tok, "<")) { Token *start = tok; for (; !equal(tok, ">"); tok = tok->next) if (tok->at_bol || tok->kind == TK_EOF) '
+                'error_tok(tok, "expected \'>\'"); *is_dquote = false; *rest = skip_line(tok->next); return join_tokens(start->next, tok); } '
+                'if (tok->kind == TK_IDENT) { Token *tok2 = preprocess2(copy_line(rest, tok)); if (tok2->kind == TK_IDENT) error_tok(tok2, "expected a filename"); '
+                'return read_include_filename(&tok2, tok2, is_dquote); } error_tok(tok, "expected a filename");')
+    if rif != want_rif:
+        raise ExtractError('read_include_filename is not the function the hand model transcribes: ' + rif)
+    jt = norm(function_body(pp, r'^static\s+char\s*\*\s*join_tokens\s*\(\s*Token\s*\*\s*tok\s*,\s*Token\s*\*\s*end\s*\)\s*\{', 'join_tokens'))
+    want_jt = ('int len = 1; for (Token *t = tok; t != end && t->kind != TK_EOF; t = t->next) { if (t != tok && (t->has_space || t->at_bol)) len++; len += t->len; } '
+               'char *buf = calloc(1, len); int pos = 0; for (Token *t = tok; t != end && t->kind != TK_EOF; t = t->next) { '
+               "if (t != tok && (t->has_space || t->at_bol)) buf[pos++] = ' '; strncpy(buf + pos, t->loc, t->len); pos += t->len; } buf[pos] = '\\0'; return buf;")
+    if jt != want_jt:
+        raise ExtractError('join_tokens is not the function the hand model transcribes: ' + jt)
+    cl = norm(function_body(pp, r'^static\s+Token\s*\*\s*copy_line\s*\(\s*Token\s*\*\*\s*rest\s*,\s*Token\s*\*\s*tok\s*\)\s*\{', 'copy_line'))
+    if cl != ('Token head = {}; Token *cur = &head; for (; !tok->at_bol && tok->kind != TK_EOF; tok = tok->next) cur = cur->next = copy_token(tok); '
+              'cur->next = new_eof(tok); *rest = tok; return head.next;'):
+        raise ExtractError('copy_line is not the function the hand model transcribes: ' + cl)
+    fm = norm(function_body(pp, r'^static\s+Token\s*\*\s*file_macro\s*\(\s*Token\s*\*\s*tmpl\s*\)\s*\{', 'file_macro'))
+    if fm != 'while (tmpl->origin) tmpl = tmpl->origin; LineMarker *m = line_marker_at(tmpl); return new_str_token(m ? m->display_name : tmpl->file->name, tmpl);':
+        raise ExtractError('file_macro (__FILE__) is not the function the driver\'s expander transcribes: ' + fm)
+    em = norm(function_body(pp, r'^static\s+bool\s+expand_macro\s*\(\s*Token\s*\*\*\s*rest\s*,\s*Token\s*\*\s*tok\s*\)\s*\{', 'expand_macro'))
+    want_em_head = ('if (hideset_contains(tok->hideset, tok->loc, tok->len)) return false; Macro *m = find_macro(tok); if (!m) return false; '
+                    'if (m->handler) { *rest = m->handler(tok); (*rest)->next = tok->next; return true; } '
+                    'if (m->is_objlike) { Hideset *hs = hideset_union(tok->hideset, new_hideset(m->name)); Token *body = add_hideset(subst(m->body, NULL, true), hs); '
+                    'for (Token *t = body; t->kind != TK_EOF; t = t->next) t->origin = tok; *rest = append(body, tok->next); '
+                    'if (body->kind != TK_EOF) { (*rest)->at_bol = tok->at_bol; (*rest)->has_space = tok->has_space; } return true; } '
+                    'if (!equal(tok->next, "(")) return false;')
+    if not em.startswith(want_em_head):
+        raise ExtractError('expand_macro: the object-like arm is not the one the driver\'s expander (IncludeOperand.expandObj) transcribes: ' + em[:400])
+
     out = HEADER.format(tool='c10incl.py', src='main.c, preprocess.c')
     out += 'namespace ChibiVerif.Gen.C10Incl\n\n'
     out += '/-- the three sources of `include_paths` entries -/\ninductive Seg where\n  | I | sys | after\n  deriving DecidableEq, Repr\n\n'
@@ -254,6 +315,10 @@ def generate(repo):
     out += 'def guardReject : List String := ' + lean_strs(g_reject) + '\n'
     out += 'def guardClose : List String := ' + lean_strs(g_close) + '\n'
     out += '/-- directive names dispatched by preprocess2, in order -/\n'
-    out += 'def dispatchOrder : List String := ' + lean_strs(dispatch) + '\n\n'
+    out += 'def dispatchOrder : List String := ' + lean_strs(dispatch) + '\n'
+    out += '/-- parse_args also accepts `-I dir` as two arguments (pushed in the same command-line order) -/\n'
+    out += f'def iSeparateArm : Bool := {"true" if m_isep else "false"}\n'
+    out += '/-- include_file refuses an #include whose directive stands in a file of this nesting depth (main file = 0) -/\n'
+    out += f'def includeDepthLimit : Nat := {depth_limit}\n\n'
     out += 'end ChibiVerif.Gen.C10Incl\n'
     return {'C10InclGen.lean': out}
